@@ -409,3 +409,111 @@ Example score_history_stale_refuted :
     <> opt_bind (sh_lrun [ShSet 0 [(2, Some (4, 0, 4)); (3, None)]] [[(1, Some (0, 0, 4))]])
                 (sh_map_opt (transpose_elems 3 3 true)).
 Proof. split; [vm_compute; reflexivity | vm_compute; discriminate]. Qed.
+
+(* ------------------------------------------------------------------------------------------------
+   "returns a NEW score or part ... and the argument itself is not modified" (Model/C16_Heap.v, Proofs/C16_heap.v):
+   objects live in a heap (address = position; a cell = fingerprint and pitch of one object; a Part object is a cell
+   and stands first in its part's address list), transpose() = copy.deepcopy with its memo (new cells at the end of
+   the heap), then _transpose_note_inplace ASSIGNS to the cells of the copy.  hp_valid: every address of the argument
+   is a cell of the heap; NoDup: no object is listed twice in the argument.  Tied to the code by the stream
+   "identity" of harness/props/c16.py (objects numbered by id(), heap before and after the real call). *)
+From PV Require Proofs.C16_heap.
+From PV Require Import Model.C16_Heap.
+
+(* refinement to the value-level driver: what is read through the result's addresses after the call is
+   transpose_elems of what was read through the argument's addresses before it, part by part (same part sizes) *)
+Theorem heap_transpose_refines : forall n q up h arg h2 res,
+  hp_valid h arg -> NoDup (List.concat arg) -> hp_transpose n q up h arg = Some (h2, res) ->
+  exists es es',
+    hp_read h (List.concat arg) = map Some es /\ transpose_elems n q up es = Some es' /\
+    hp_read h2 (List.concat res) = map Some es' /\ map (@List.length nat) res = map (@List.length nat) arg.
+Proof. exact PV.Proofs.C16_heap.hp_refines_lemma. Qed.
+Print Assumptions heap_transpose_refines.
+
+(* the argument itself is not modified: every cell that existed before the call holds what it held *)
+Theorem heap_transpose_keeps_argument : forall n q up h arg h2 res,
+  hp_valid h arg -> NoDup (List.concat arg) -> hp_transpose n q up h arg = Some (h2, res) ->
+  firstn (List.length h) h2 = h /\ hp_read h2 (List.concat arg) = hp_read h (List.concat arg).
+Proof. exact PV.Proofs.C16_heap.hp_keeps_argument_lemma. Qed.
+Print Assumptions heap_transpose_keeps_argument.
+
+(* the result is new: only cells allocated by the call, pairwise different, none of them a cell of the argument *)
+Theorem heap_transpose_result_fresh : forall n q up h arg h2 res,
+  hp_valid h arg -> NoDup (List.concat arg) -> hp_transpose n q up h arg = Some (h2, res) ->
+  Forall (fun a => (List.length h <= a < List.length h2)%nat) (List.concat res) /\ NoDup (List.concat res) /\
+  (forall a, In a (List.concat res) -> ~ In a (List.concat arg)).
+Proof. exact PV.Proofs.C16_heap.hp_result_fresh_lemma. Qed.
+Print Assumptions heap_transpose_result_fresh.
+
+Theorem heap_transpose_total : forall n q up h arg sem,
+  iv_semitones n q = Some sem -> hp_valid h arg -> NoDup (List.concat arg) ->
+  exists h2 res, hp_transpose n q up h arg = Some (h2, res).
+Proof. exact PV.Proofs.C16_heap.hp_total_lemma. Qed.
+Print Assumptions heap_transpose_total.
+
+(* non-vacuity: a part object, C#4 tied to a second C#4, a grace B3 and a rest, down an augmented second *)
+Example heap_transpose_example :
+  hp_transpose 2 5 false PV.Proofs.C16_heap.hp_ex_heap [[0; 1; 2; 3; 4]]%nat
+  = Some ((PV.Proofs.C16_heap.hp_ex_heap ++ [(10, None); (11, Some (6, -1, 3)); (12, Some (6, -1, 3)); (13, Some (5, -1, 3)); (14, None)])%list,
+          [[5; 6; 7; 8; 9]]%nat) /\
+  hp_valid PV.Proofs.C16_heap.hp_ex_heap [[0; 1; 2; 3; 4]]%nat /\ NoDup (List.concat [[0; 1; 2; 3; 4]]%nat).
+Proof. exact PV.Proofs.C16_heap.hp_example_lemma. Qed.
+Print Assumptions heap_transpose_example.
+
+(* NOT vacuous: "a perfect unison changes nothing, hand the argument back" (not the code) returns the argument's own
+   cells -- heap_transpose_result_fresh fails for it *)
+Example heap_unison_fast_path_refuted :
+  hp_transpose_fast 1 4 true PV.Proofs.C16_heap.hp_ex_heap [[0; 1; 2; 3; 4]]%nat
+    = Some (PV.Proofs.C16_heap.hp_ex_heap, [[0; 1; 2; 3; 4]]%nat) /\
+  ~ (forall a, In a (List.concat [[0; 1; 2; 3; 4]]%nat) -> ~ In a (List.concat [[0; 1; 2; 3; 4]]%nat)).
+Proof. exact PV.Proofs.C16_heap.hp_fast_refuted_lemma. Qed.
+Print Assumptions heap_unison_fast_path_refuted.
+
+(* NOT vacuous: copy.copy instead of copy.deepcopy (not the code) assigns to the argument's notes --
+   heap_transpose_keeps_argument fails for it *)
+Example heap_shallow_copy_refuted :
+  exists h2 res, hp_transpose_shallow 2 5 false PV.Proofs.C16_heap.hp_ex_heap [[0; 1; 2; 3; 4]]%nat = Some (h2, res) /\
+                 firstn (List.length PV.Proofs.C16_heap.hp_ex_heap) h2 <> PV.Proofs.C16_heap.hp_ex_heap.
+Proof. exact PV.Proofs.C16_heap.hp_shallow_refuted_lemma. Qed.
+Print Assumptions heap_shallow_copy_refuted.
+
+(* the hypothesis NoDup is needed, and this IS the code (Score([p, p]): deepcopy's memo hands out the one copy of p
+   twice, the loop visits it twice): C4 up a major third comes back as G#4 *)
+Example heap_same_part_twice_moves_twice :
+  hp_transpose 3 3 true [(10, None); (11, Some (0, 0, 4))] [[0; 1]; [0; 1]]%nat
+  = Some ([(10, None); (11, Some (0, 0, 4)); (10, None); (11, Some (4, 1, 4))], [[2; 3]; [2; 3]]%nat).
+Proof. exact PV.Proofs.C16_heap.hp_same_part_twice_lemma. Qed.
+Print Assumptions heap_same_part_twice_moves_twice.
+
+(* the per-call statements chained over a whole HISTORY of calls on one live argument (hp_run: each call transposes
+   the original argument again, or the result of the call before it; hp_vrun: the same sequence on element lists,
+   Model/C16.v): for EVERY sequence, every cell that existed before the first call still holds what it held -- the
+   argument is not modified by any later call, whatever is done with the results --, the latest result consists of
+   pairwise different cells, and what is read through it is what the sequence computes on values *)
+Theorem heap_history_keeps_argument_and_refines : forall calls h arg h' res,
+  hp_valid h arg -> NoDup (List.concat arg) -> hp_run calls h arg arg = Some (h', res) ->
+  firstn (List.length h) h' = h /\ hp_read h' (List.concat arg) = hp_read h (List.concat arg) /\
+  NoDup (List.concat res) /\
+  exists va v, hp_read h (List.concat arg) = map Some va /\ hp_vrun calls va va = Some v /\
+               hp_read h' (List.concat res) = map Some v.
+Proof. exact PV.Proofs.C16_heap.hp_history_lemma. Qed.
+Print Assumptions heap_history_keeps_argument_and_refines.
+
+(* C4: up a major third (E4), that result down a minor second (D#4), the ORIGINAL again up a perfect fifth (G4) *)
+Example heap_history_example :
+  hp_run [HpCall false 3 3 true; HpCall true 2 2 false; HpCall false 5 4 true] [(10, None); (11, Some (0, 0, 4))] [[0; 1]]%nat [[0; 1]]%nat
+  = Some ([(10, None); (11, Some (0, 0, 4)); (10, None); (11, Some (2, 0, 4)); (10, None); (11, Some (1, 1, 4)); (10, None); (11, Some (4, 0, 4))],
+          [[6; 7]]%nat).
+Proof. exact PV.Proofs.C16_heap.hp_history_example_lemma. Qed.
+Print Assumptions heap_history_example.
+
+(* NOT vacuous: a machine that keeps the copy it made for an argument and transposes THAT copy in place when the
+   argument comes again (not the code) answers B4 (E4 moved by the fifth) where the sequence on values says G4 *)
+Example heap_history_memo_refuted :
+  let calls := [HpCall false 3 3 true; HpCall false 5 4 true] in
+  let h := [(10, None); (11, Some (0, 0, 4))] in
+  hp_run_memo calls h [[0; 1]]%nat
+    = Some ([(10, None); (11, Some (0, 0, 4)); (10, None); (11, Some (6, 0, 4))], [[2; 3]]%nat) /\
+  hp_vrun calls [(10, None); (11, Some (0, 0, 4))] [(10, None); (11, Some (0, 0, 4))] = Some [(10, None); (11, Some (4, 0, 4))].
+Proof. exact PV.Proofs.C16_heap.hp_history_memo_refuted_lemma. Qed.
+Print Assumptions heap_history_memo_refuted.
